@@ -2769,6 +2769,12 @@ def run(ctx):
                                       f"accessory's keys (Control-Write / Control-Read / Event labels) on {s.ident()}", True,
                                       **replay_payload(s, rec, None, dict(extra, glue="keys installed by the real transport code "
                                                                           "fail the functional check against accessory_keys"))))
+    # ---- the bit-exact HKDF-SHA-512 model (what the free symbol THkdf stands for) against aiohomekit/crypto/hkdf.py
+    if not ctx.get("replay"):
+        import hkdftie
+        hk_info, hk_viols = hkdftie.run(ctx, "full" if tier == "thorough" else "mini")
+        cov.extra["hkdf_bit_exact"] = hk_info
+        viol.extend(hk_viols)
     # ---- extraction cross-check: a sample of the same requests evaluated by the Coq kernel's VM
     if not ctx.get("replay"):
         n_xc, xc_bad = vm_crosscheck(ctx, xc_sample(list(zip(lines, model_answers))))
